@@ -183,6 +183,11 @@ def get_image_quadrants(IM, reorient=True, symmetry_axis=None,
         return Q0, Q1, Q2, Q3
 
     elif symmetrize_method == "average":
+        if (0 in symmetry_axis or 1 in symmetry_axis) and \
+                not np.issubdtype(Q0.dtype, np.floating):
+            # (sums of narrow integer types would wrap around)
+            Q0, Q1, Q2, Q3 = [Q.astype(float) for Q in (Q0, Q1, Q2, Q3)]
+
         if 0 in symmetry_axis and 1 in symmetry_axis:
             Q = (Q0 + Q1 + Q2 + Q3)/np.sum(use_quadrants)
             return Q, Q, Q, Q
